@@ -16,7 +16,8 @@ def ipv6_pred(E):
     return f
 
 
-HINT_TEMPLATES = {'server_name_ok': [b'a.b', b'h:80', b'1.2.3.4', b'[::1]:8448'],
+HINT_TEMPLATES = {'user_id_ok': [b'@a:b', b'@b:c.d'], 'room_id_ok': [b'!a:b', b'!a'], 'room_alias_id_ok': [b'#a:b'], 'event_id_ok': [b'$a:b', b'$a', b'$b'],
+                  'server_name_ok': [b'a.b', b'h:80', b'1.2.3.4', b'[::1]:8448'],
                   'ipv6_ok': [b'::1', b'1::', b'1:2:3:4:5:6:7:8'], 'ipv4_ok': [b'1.2.3.4']}
 
 
